@@ -294,6 +294,7 @@ pub fn run_other(ctx: &mut Ctx, kind: &str, v: &J) {
     match kind {
         "fixpoint" => run_fixpoint(ctx, v),
         "oneitem" => run_oneitem(ctx, v),
+        "parse" => crate::runner7::run_parse(ctx, v),
         "recipe" => {
             let scratch = ctx.scratch.clone();
             crate::runner6::run_recipe(ctx, v, &scratch)
